@@ -2593,6 +2593,11 @@ func (c ipamClient) ensureBlock(ctx context.Context, rsvdAttr *HostReservedAttr,
 		allowNewClaim:         true,
 		reservations:          reservations,
 	}
+	if config.MaxBlocksPerHost > 0 && len(affBlocks) >= config.MaxBlocksPerHost {
+		// The host already owns as many blocks as it may: use one of those or fail,
+		// as autoAssign does.
+		s.allowNewClaim = false
+	}
 
 	// Ensure a block
 	b, _, err := s.findOrClaimBlock(ctx, config, 0)
